@@ -387,6 +387,9 @@ func checkC05(c *Ctx, r *Report) {
 			}
 			return false
 		}
+		for _, in := range findInstrs(f, incP) {
+			r3.Check(mapStepsBy(in, dlT+".activePerPeer", token.ADD, 1), dl("addCheckPeerLimit")+": the peer token is taken by counting up by one", instrPos(in), 1, "", "", "activePerPeer[p] is not written as activePerPeer[p] + 1")
+		}
 		r3.guard(f, "take peer token", findInstrs(f, incP), "activePerPeer[p] < perPeerLimit", edgeExcl(isActive, func(v ssa.Value) bool { return isLoadOfField(dlT + ".perPeerLimit")(strip2(v)) }, ordEQ, ordGT), nil)
 	}
 	if f := r3.need(dl("freePeerToken")); f != nil {
@@ -394,6 +397,25 @@ func checkC05(c *Ctx, r *Report) {
 		calls := findInstrs(f, callPred(dl("addCheckFdLimit")))
 		for _, cl := range calls {
 			r3.guard(f, "addCheckFdLimit(next)", []ssa.Instruction{cl}, "!next.cancelled()", edgeBool(isCallResult(0, "(*"+swarmP+".dialJob).cancelled"), false), nil)
+		}
+		// the token is given back by counting down by one (or by forgetting the peer's counter) on every path, and a
+		// waiter that goes on to the FD stage has counted itself up again in between
+		isUpd := func(in ssa.Instruction) bool {
+			_, ok := in.(*ssa.MapUpdate)
+			return ok && isFieldWrite(in, dlT+".activePerPeer")
+		}
+		down := func(in ssa.Instruction) bool {
+			return mapStepsBy(in, dlT+".activePerPeer", token.SUB, 1) || (isCallTo(in, "builtin.delete") && isFieldWrite(in, dlT+".activePerPeer"))
+		}
+		up := func(in ssa.Instruction) bool { return mapStepsBy(in, dlT+".activePerPeer", token.ADD, 1) }
+		for _, in := range findInstrs(f, isUpd) {
+			r3.Check(down(in) || up(in), dl("freePeerToken")+": the peer counter moves by one", instrPos(in), 1, "", "", "activePerPeer[p] is written neither as +1 nor as -1")
+		}
+		q := &Cut{Fn: f, Target: func(in ssa.Instruction) bool { _, ok := in.(*ssa.Return); return ok }, Sep: down}
+		r3.mustPass(f, dl("freePeerToken")+": every path gives the token back (counts down)", q, 1)
+		for _, cl := range calls {
+			w, n := (&Cut{Fn: f, From: findInstrs(f, down), Target: isInstr(cl), Sep: up}).Run(c)
+			r3.Check(w == "", dl("freePeerToken")+": the waiter handed to the FD stage re-takes the peer token (counts up)", instrPos(cl), n+1, "", "", w)
 		}
 	}
 	if f := r3.need(dl("executeDial")); f != nil {
@@ -815,4 +837,30 @@ func initsFreshFieldTo(in ssa.Instruction, n int64) bool {
 	}
 	_, fresh := fa.X.(*ssa.Alloc)
 	return fresh
+}
+
+// mapStepsBy: the instruction is m[k] = m[k'] op n on the map field (x.m[k]++, x.m[k] -= n, ...).
+func mapStepsBy(in ssa.Instruction, fieldKey string, op token.Token, n int64) bool {
+	mu, ok := in.(*ssa.MapUpdate)
+	if !ok || !isFieldWrite(in, fieldKey) {
+		return false
+	}
+	b, ok := mu.Value.(*ssa.BinOp)
+	if !ok || b.Op != op {
+		return false
+	}
+	x, y := b.X, b.Y
+	if _, isC := constInt(x); isC && op == token.ADD {
+		x, y = y, x
+	}
+	k, isC := constInt(y)
+	if !isC || k != n {
+		return false
+	}
+	x = strip2(x)
+	if ex, ok := x.(*ssa.Extract); ok && ex.Index == 0 {
+		x = ex.Tuple
+	}
+	lk, ok := x.(*ssa.Lookup)
+	return ok && isLoadOfField(fieldKey)(strip2(lk.X))
 }
